@@ -453,7 +453,7 @@ class _Parser:
                         # find corresponding base item
                         for base_item in base_value:
                             if type(base_item) is collections.OrderedDict:
-                                if len(olay_item) == 1:
+                                if len(base_item) == 1:
                                     base_name = list(base_item)[0]
 
                                     if olay_name == base_name:
